@@ -241,7 +241,18 @@ impl LtServer {
             let nonce = match lt["nonce"].as_str().unwrap_or("fresh") {
                 "fresh" => Some(format!("n{}-{:08x}", self.counter, self.counter.wrapping_mul(2654435761))),
                 "fresh_cookie" => {
-                    let mut f = [0u8; 3];
+                    // the 22 unassigned security-feature bits are filled pseudo-randomly (a client
+                    // must ignore them); every third cookie ends in the sextet 63 and every fifth
+                    // has 62 in second place, so that '/' and '+' occur in the base64 text
+                    let h = self.counter.wrapping_mul(2654435761);
+                    let mut f = [(h & 0x3f) as u8, (h >> 8) as u8, (h >> 16) as u8];
+                    if self.counter % 3 == 0 {
+                        f[2] |= 0x3f;
+                    }
+                    if self.counter % 5 == 0 {
+                        f[0] = (f[0] & 0xf0) | 0x0f;
+                        f[1] = (f[1] & 0x0f) | 0xe0;
+                    }
                     if lt["pa"].as_bool().unwrap_or(false) {
                         f[0] |= 0x80;
                     }
